@@ -35,6 +35,9 @@ for sd in sorted(glob.glob('/verif/seeded/*/')):
         missing = [p for p in want if p not in det]
         if missing:
             problems.append(f'{seed}: no longer reported by {missing}')
+    elif own and own not in det and meta.get('open_miss'):
+        # recorded in DESIGN 6.20 as not reported by its own check (no rule was added for it): a note, not a regression
+        print('NOTE', f'{seed}: open miss, own check {own} is silent (reported by {det})')
     elif own and own not in det:
         problems.append(f'{seed}: own check {own} is silent (reported by {det})')
     if seed in old:
